@@ -284,6 +284,9 @@ def stepLine (sim : Sim) (line : Nat) (raw : String) : IO Sim := do
     | some st' => return { sim with st := st' }
     | none => diff sim line "model does not allow dropSender here"
   | ["clonesender"] => return sim
+  | "abort" :: _ =>
+    IO.println s!"ABORT {sim.name} line={line}"
+    return { sim with active := false }
   | "panic" :: rest => fail sim line ("panic in the real code or harness: " ++ " ".intercalate rest)
   | ["end"] => finishCase sim line
   | _ => diff sim line s!"unknown line: {l}"
